@@ -235,6 +235,7 @@ Definition valid_port (n : netlist) (q : port) : bool :=
 Definition wf_node (n : netlist) (nd : node) : bool :=
   match nkind nd with
   | KSig2Clk | KSig2Rst => match nclocks nd with [] => false | _ :: _ => true end
+  | KCdc => match nins nd with [] => false | _ :: _ => true end      (* Node_CDC() : Node(1, 1) *)
   | _ => true
   end
   && forallb (fun d => match d with None => true | Some q => valid_port n q end) (nins nd).   (* no dangling drivers *)
